@@ -5,6 +5,9 @@ import Resgate.Model.Diff
 import Resgate.Model.Http
 import Resgate.Model.Throttle
 import Resgate.Gw.Run
+import Resgate.Model.Encode
+import Resgate.Model.Svc
+import Resgate.Model.Nats
 
 /-
 Line-protocol driver: one operation per input line, one canonical result per output line.
@@ -184,6 +187,100 @@ def evalLine (line : String) : String :=
       | some (t, started) =>
         s!"running={t.running} queue={t.queue.length} started=" ++ ",".intercalate (started.map toString)
     | _, _ => "bad-op"
+  | ["natsguard", l, d] =>
+    match l.toNat?, d.toNat? with
+    | some l, some d => if Nats.requestRefused l d then "subjectTooLong" else "pass"
+    | _, _ => "bad-op"
+  | "nats" :: ins =>
+    let parse : String → Option Nats.In := fun t =>
+      if t == "reply" then some .reply
+      else if t == "noResponders" then some .noResponders
+      else if t == "pre0" then some (.pre false)
+      else if t == "pre1" then some (.pre true)
+      else if t == "fireQueue" then some .fireQueue
+      else if t.startsWith "fireExtended" then (t.drop 12).toString.toNat?.map Nats.In.fireExtended
+      else none
+    match ins.mapM parse with
+    | none => "bad-op"
+    | some is =>
+      let (_, cbs) := Nats.run (.pending .queue 0) is
+      ",".intercalate (cbs.map fun c => match c with | .reply => "reply" | .notFound => "notFound" | .timeout => "timeout")
+  | "svc" :: ops =>
+    let rec go (st : Svc.S) (acc : List String) : List String → List String
+      | [] => acc.reverse
+      | op :: rest =>
+        if op == "start" then
+          let (s1, o) := Svc.step st .start
+          go s1 ((match o with | .started => "started" | .startNoop => "startNoop" | _ => "startRefused") :: acc) rest
+        else if op == "stop" || op.startsWith "closed" then
+          let cause := if op == "stop" then none else some "lost"
+          let (s1, o) := Svc.step st (.stopBegin cause)
+          match o with
+          | .stopNoop => go s1 ("stopNoop" :: acc) rest
+          | _ =>
+            let (s2, o2) := Svc.step s1 .stopEnd
+            match o2 with
+            | .stopped c n => go s2 (s!"stopped:{c.getD "nil"}:closed={n}" :: acc) rest
+            | _ => go s2 ("?" :: acc) rest
+        else if op == "conn" then
+          let (s1, o) := Svc.step st .connect
+          go s1 ((match o with | .connected => "connected" | _ => "refused") :: acc) rest
+        else if op == "http" then
+          let (_, o) := Svc.step st .connect
+          go st ((match o with | .connected => "401" | _ => "503") :: acc) rest
+        else go st ("bad-op" :: acc) rest
+    " ".intercalate (go {} [] ops)
+  | ["errstatus", c] =>
+    match unhex c with
+    | some cb => toString (errorStatus (Resgate.Gw.ofBytes cb))
+    | none => "bad-op"
+  | ["direct", st] =>
+    match st.toInt? with
+    | some n => b2s (isDirectStatus (some n))
+    | none => "bad-op"
+  | ["path", p, q, pre] =>
+    match unhex p, unhex q, unhex pre with
+    | some pb, some qb, some preb => hex (Enc.pathToRID pb qb preb)
+    | _, _, _ => "bad-op"
+  | ["pathaction", p, q, pre] =>
+    match unhex p, unhex q, unhex pre with
+    | some pb, some qb, some preb =>
+      let (r, a) := Enc.pathToRIDAction pb qb preb
+      hex r ++ " " ++ hex a
+    | _, _, _ => "bad-op"
+  | ["ridpath", r, pre] =>
+    match unhex r, unhex pre with
+    | some rb, some preb =>
+      hex (Resgate.Gw.toBytes (Enc.ridToPath (Resgate.Gw.ofBytes rb) (Resgate.Gw.ofBytes preb)))
+    | _, _ => "bad-op"
+  | "enc" :: flat :: pre :: root :: nodes =>
+    -- nodes: <ridhex>:m:<khex>=<v>,...  |  <ridhex>:c:<v>,...  |  <ridhex>:e:<jsonhex>
+    let str := fun (h : String) => (unhex h).map Resgate.Gw.ofBytes
+    let pv := fun (v : String) =>
+      let body := (v.drop 1).toString
+      if v.startsWith "p" then (str body).map Enc.HVal.prim
+      else if v.startsWith "d" then (str body).map Enc.HVal.data
+      else if v.startsWith "s" then (str body).map Enc.HVal.soft
+      else if v.startsWith "r" then (str body).map Enc.HVal.ref
+      else none
+    let pn := fun (n : String) => match n.splitOn ":" with
+      | [r, "e", j] => do pure ((← str r), Enc.HNode.err (← str j))
+      | [r, "m", kvs] => do
+        let items ← (if kvs == "" then [] else kvs.splitOn ",").mapM fun kv =>
+          match kv.splitOn "=" with
+          | [k, v] => do pure ((← str k), (← pv v))
+          | _ => none
+        pure ((← str r), Enc.HNode.model items)
+      | [r, "c", vs] => do
+        let items ← (if vs == "" then [] else vs.splitOn ",").mapM pv
+        pure ((← str r), Enc.HNode.coll items)
+      | _ => none
+    match nodes.mapM pn, str pre, str root with
+    | some g, some pref, some rt =>
+      match Enc.encodeGET g pref (flat == "1") rt with
+      | some out => out
+      | none => "nil-reference"
+    | _, _, _ => "bad-op"
   | _ => "bad-op"
 
 partial def loop (hin : IO.FS.Stream) (hout : IO.FS.Stream) (gw : Option (Resgate.Gw.Gw × Bool)) : IO Unit := do
